@@ -365,16 +365,113 @@ func runC05(rc *RunCtx) {
 				nd.FailPrefix, nd.FailOps = "sys/expire/id/", "get tx-get"
 				nd.FailNth = 1 + tp.Pick(len(disk.RawKeys("sys/expire/id/")))
 			}
-			note("restart (restore read fault: %v)", faultyRestore)
-			nh, err := Reboot(nd, h)
+			// busy restore: the node is restarted under the scheduler and
+			// clients renew / revoke / look up leases while the expiration
+			// manager is still loading them (restore mode)
+			busy := !faultyRestore && tp.Pick(3) == 0 && (len(live("secret"))+len(live("token"))) > 0
+			note("restart (restore read fault: %v, requests during restore: %v)", faultyRestore, busy)
+			var nh *CoreH
+			var err error
+			if busy {
+				h.Shutdown()
+				s.SetControlled()
+				s.Go(fmt.Sprintf("reboot%d", i), func() { nh, err = Reboot(nd, h) })
+				s.RunClients()
+			} else {
+				nh, err = Reboot(nd, h)
+			}
 			if err != nil {
 				panic(err)
+			}
+			if s.Trunc {
+				nh.Shutdown()
+				return
 			}
 			old := h
 			h = nh
 			disk = nh.Disk
-			old.Shutdown()
+			if !busy {
+				old.Shutdown()
+			}
 			s.Faults["crash"]++
+			if busy {
+				_, _, _, restoring := vault.VerifTrackedLeases(h.Core)
+				if restoring {
+					s.Probe("requests_issued_in_restore_mode")
+				}
+				type wres struct {
+					l    *c05Lease
+					kind string
+					resp *logical.Response
+					err  error
+					inc  time.Duration
+				}
+				var ws []*wres
+				used := map[*c05Lease]bool{}
+				for j := 0; j < 1+tp.Pick(3); j++ {
+					all := append(live("secret"), live("token")...)
+					l := all[tp.Pick(len(all))]
+					if used[l] {
+						continue
+					}
+					used[l] = true
+					w := &wres{l: l, inc: durs[tp.Pick(len(durs))]}
+					ws = append(ws, w)
+					tag := fmt.Sprintf("w%d_%d", i, j)
+					switch {
+					case l.kind == "secret" && tp.Pick(4) == 0:
+						w.kind = "revoke"
+						s.Go(tag, func() {
+							w.resp, w.err = h.Do(tag, Req{Op: logical.UpdateOperation, Path: "sys/leases/revoke", Token: h.Root, Data: map[string]any{"lease_id": l.id}})
+						})
+					case l.kind == "secret":
+						w.kind = "renew"
+						s.Go(tag, func() {
+							w.resp, w.err = h.Do(tag, Req{Op: logical.UpdateOperation, Path: "sys/leases/renew", Token: h.Root, Data: map[string]any{"lease_id": l.id, "increment": secs(w.inc)}})
+						})
+					default:
+						w.kind = "trenew"
+						s.Go(tag, func() {
+							w.resp, w.err = h.Do(tag, Req{Op: logical.UpdateOperation, Path: "auth/token/renew", Token: h.Root, Data: map[string]any{"token": l.id, "increment": secs(w.inc)}})
+						})
+					}
+				}
+				s.Run()
+				s.PassThrough()
+				if s.Trunc {
+					return
+				}
+				for _, w := range ws {
+					ok := w.err == nil && w.resp != nil && !w.resp.IsError()
+					note("during restore: %s %s -> ok=%v", w.kind, w.l.secID+w.l.accessor, ok)
+					switch w.kind {
+					case "revoke":
+						if ok {
+							w.l.dead = true
+						}
+					case "renew":
+						if ok && w.resp.Secret != nil {
+							if !w.l.renewable || time.Now().After(w.l.expire.Add(slack)) {
+								viol("renewed-unrenewable-lease", map[string]any{"expired": time.Now().After(w.l.expire), "renewable": w.l.renewable, "irrevocable": false}, "renew of lease %s during restore succeeded although renewable=%v", w.l.id, w.l.renewable)
+								return
+							}
+							if !checkGrant(w.l, w.resp.Secret.TTL, "renew") {
+								return
+							}
+						}
+					case "trenew":
+						if ok && w.resp.Auth != nil {
+							if !w.l.renewable {
+								viol("renewed-unrenewable-lease", map[string]any{"expired": false, "renewable": false, "irrevocable": false}, "renew of token %s during restore succeeded although it is not renewable", w.l.accessor)
+								return
+							}
+							if !checkGrant(w.l, w.resp.Auth.TTL, "token-renew") {
+								return
+							}
+						}
+					}
+				}
+			}
 			if faultyRestore {
 				s.SetControlled()
 				s.Drain(10*time.Second, 2*time.Second)
